@@ -14,6 +14,15 @@ if ! cargo build --offline >"$log" 2>&1; then
   tail -40 "$log"; rm -f "$log"; exit 2
 fi
 rm -f "$log"
+if [ "$id" = C20 ]; then
+  # C20 compares the library with the real command-line tool: build it from /repo's working tree (hooks off)
+  log="$(mktemp)"
+  if ! env -u RUSTFLAGS cargo build --offline --manifest-path /repo/Cargo.toml -p duckscript_cli --target-dir "$here/harness/target/cli" >"$log" 2>&1; then
+    echo "INCONCLUSIVE property=$id: building the duck binary from /repo failed"
+    tail -40 "$log"; rm -f "$log"; exit 2
+  fi
+  rm -f "$log"
+fi
 # watchdog: a hang inside native code is reported as inconclusive, never as a violation
 limit=${VERIF_WATCHDOG_S:-$([ "$tier" = thorough ] && echo 14400 || echo 1500)}
 timeout -k 10 "$limit" ./target/debug/dsverif check "$id" --tier "$tier"
